@@ -11,6 +11,6 @@ one() {
   echo "$s $mode $ex $first" > /tmp/as2/$s.txt
 }
 export -f one
-ls -d seeded/C*/ | xargs -P 8 -I{} bash -c 'one {}'
+ls -d seeded/C*/ | xargs -P 10 -I{} bash -c 'one {}'
 cat /tmp/as2/*.txt | sort -V > /tmp/allseeds2.txt
 echo DONE >> /tmp/allseeds2.txt
